@@ -65,6 +65,10 @@ pub struct Fired {
     pub std_stream_failed: bool,
     /// an advisory lock was refused (another process "holds" it)
     pub lock_refused: bool,
+    /// getcwd() failed (the current directory was deleted)
+    pub cwd_failed: bool,
+    /// a catchable signal was delivered mid-run (counts as `crashed` for the expectations)
+    pub signalled: bool,
     pub crashed: bool,
     /// kinds that fired at least once, with counts (for evidence)
     pub kinds: Vec<(String, u64)>,
@@ -136,6 +140,11 @@ pub fn fired(trace: &[TraceEvent]) -> Fired {
                 f.walk_failed.insert(ev.target.clone());
             }
             "crash" => f.crashed = true,
+            "signal" => {
+                f.crashed = true;
+                f.signalled = true;
+            }
+            "getcwd" => f.cwd_failed = true,
             "flock" if ev.ret < 0 => f.lock_refused = true,
             _ => {}
         }
